@@ -673,7 +673,8 @@ def gen_selection(rng, suite, max_workers=3):
         if r < 0.45:
             vm_strs[vm] = f"only {rng.choice(vs)}\n"
         elif r < 0.6 and len(vs) > 1:
-            vm_strs[vm] = "only " + ", ".join(vs) + "\n"
+            # (a list may be written with any blanks around the commas: `a, b`, `a,b`, `a,  b`, `a , b`)
+            vm_strs[vm] = "only " + [", ", ", ", ",", ",  ", " , "][int(r * 1000) % 5].join(vs) + "\n"
         elif r < 0.7 and len(vs) > 1:
             vm_strs[vm] = f"no {rng.choice(vs)}\n"
         else:
@@ -1364,7 +1365,8 @@ def gen_shipped_case(rng, with_suite=True, max_workers=3):
              "only leaves..tutorial_gui..client_clicked,leaves..tutorial1\n", "only nonleaves..linux_virtuser\n",
              "only leaves..tutorial3..remote..object..control..decorator..util\n",
              "only normal\nno tutorial3\n"]
-    vm_choices = {"vm1": ["only CentOS\n", "only CentOS\n", "only Fedora\n", "only CentOS, Fedora\n", ""],
+    vm_choices = {"vm1": ["only CentOS\n", "only CentOS\n", "only Fedora\n", "only CentOS, Fedora\n", "",
+                          "only CentOS,  Fedora\n", "only CentOS , Fedora\n"],
                   "vm2": ["only Win10\n", "only Win10\n", "only Win7\n", "", "no Win7\n"],
                   "vm3": ["only Ubuntu\n", "only Ubuntu\n", "only Kali\n", ""]}
     nets = [["net1"], ["net1", "net2"], ["net3"], ["net5"], ["net2", "net5"], ["cluster1.net6", "cluster1.net7"],
